@@ -246,7 +246,20 @@ pub fn run(ctx: &Ctx) -> Report {
         rep.evaluations += 1;
         rep.counters.class(label.clone());
         let d = || ssl_refusal_detail(&case, &obs, &label);
-        check(&obs, rep, &d);
+        if harness_panic(&obs, rep) {
+            return;
+        }
+        // only the unambiguous half of the clause is judged here: whatever the server has written
+        // (the refusal's reason, if it gives one) is flushed before it reads again. What a refused
+        // client is still owed for commands it sent behind the refused request is not for C12 to say.
+        for r in &obs.world.read_log {
+            rep.counters.inc("reads_checked");
+            if r.pending != 0 {
+                rep.violations.push(viol("C12", "C12 read-with-unflushed-output".into(), format!("read() at input offset {} while {} written bytes were not flushed", r.pos, r.pending), d()));
+                return;
+            }
+        }
+        rep.counters.inc("tls_refusals_checked");
     });
     rep.merge(r);
     // ---- commands pipelined behind commands that have no reply, on connections whose read buffer has
